@@ -31,7 +31,7 @@ PROP = dict(
          "random cuts with maximum 2/3/8/64/700/5000 bytes, the same with empty binary messages and ping frames "
          "sprinkled in, and with a run of 99..158 empty messages at a random boundary; a third of the runs with a "
          "64-byte client write buffer (messages leave as continuation frames); every mode with and without a text "
-         "message at a random position; 17 fixed + 120 (thorough 3000) random cases; plus large messages: one websocket message of exactly 65535 / 65536 / 65537 / 131072 bytes or a whole 200000-byte stream (thorough: 45 more, up to 1 MiB + 1 and random 60000..320000), carrying one big PUBLISH or many batched 2 KiB packets, sent unfragmented or as continuation frames of 64 / 1000 / 4096 / 70000 bytes.  histories of several connections: 3..6 (thorough 1..6) earlier websocket connections that end while the broker is partway through a binary message (CONNECT, DISCONNECT, filler up to the 2048-byte read buffer, then a tail of garbage / whole PUBLISH packets to the observed topic / a foreign CONNECT + PUBLISHes), followed by an ordinary session compared with TCP as always, run with GOMAXPROCS(1) and at the default (6 such cases, thorough 66).  Each case: replies over ws "
+         "message at a random position; 17 fixed + 120 (thorough 3000) random cases; plus large messages: one websocket message of exactly 65535 / 65536 / 65537 / 131072 bytes or a whole 200000-byte stream (thorough: 45 more, up to 1 MiB + 1 and random 60000..320000), carrying one big PUBLISH or many batched 2 KiB packets, sent unfragmented or as continuation frames of 64 / 1000 / 4096 / 70000 bytes.  histories of several connections: 3..6 (thorough 1..6) earlier websocket connections that end while the broker is partway through a binary message (CONNECT, DISCONNECT, filler up to the 2048-byte read buffer, then a tail of garbage / whole PUBLISH packets to the observed topic / a foreign CONNECT + PUBLISHes), followed by an ordinary session compared with TCP as always, run with GOMAXPROCS(1) and at the default (6 such cases, thorough 66).  Text messages on a read boundary: 8 cases where the text message directly follows an empty binary message / a first message of exactly 2048 bytes (the read buffer) / one whole packet of more than 4096 bytes in one message / a run of 2048-byte messages; the text payload is a valid PINGREQ or a PUBLISH to the observed topic (also in half of the random text cases), so a broker that lets it through answers or forwards it.  Each case: replies over ws "
          "(concatenated binary payloads) = replies over tcp, bytes forwarded to an observing subscriber equal, "
          "connection ended by the broker iff a text message was sent, model read sequence = bytes sent over tcp.  "
          "non-trivial = more than one data message; distinct = distinct case lines",
